@@ -9,6 +9,9 @@ let () =
     | "c05" -> Fam_parse.c05
     | "c07" -> Fam_parse.c07
     | "c12" -> Fam_parse.c12
+    | "c04" -> Fam_print.c04
+    | "c08" -> Fam_print.c08
+    | "c13" -> Fam_print.c13
     | _ -> prerr_endline ("unknown family " ^ fam); exit 2
   in
   let out = Buffer.create (1 lsl 16) in
